@@ -214,8 +214,16 @@ func runC20(r *Run) {
 	pool20(r)
 	thr20(r)
 	copy20(r)
+	// ---- other clients of the timer pool (real sleep steps, also ones whose context ends mid-sleep), then overlapping
+	// calls. Last, and not continued after a failure: once two calls have shared a timer the pool is in no defined
+	// state and pool.GetTimer may panic, which would take the recorded failing input with it.
+	for i, n := 0, r.N(5, 30); i < n; i++ {
+		if !share20(r, i) {
+			break
+		}
+	}
 
-	r.Finish("scenarios x {always_standby} x primary {answer, no answer, error} x secondary {answer, no answer, error}: A standby secondary finished first + in-time primary paused between its two signalling statements; B no standby + in-time primary paused there; C threshold passes while the primary works; D caller's context ends; E threshold counted from the start of the call; F primary fails at once and the secondary works past the threshold (the timer fires with nobody waiting on it); H the same and then the caller's context ends; each enforced on the real plugin with gated executables and the verifpoint hook and replayed as a schedule on the model; sequences of calls in one process (F/H calls one after the other on one P, or a concurrent burst of them on all Ps, then A/B calls whose primary answers 0-40 ms into a 5 s threshold), every call judged and replayed on its own; 1-3 calls abandoned by their callers while the primary works (with and without always_standby, a standby secondary finished or not; their workers left hanging) and then a call whose primary finishes 1.5 s after a 50-100 ms threshold with a secondary that answers at once when started or released (the secondary's answer must be returned before the primary finishes), on one P and on all Ps, every call replayed on the model; random borrow histories on the real pkg/pool timer pool against the model's pooled timer; configured thresholds: plugins built through Init with thresholds of 1 ms .. a day (every bound in between and random ones) run in real time, the primary finishing well within the configured threshold (for thresholds >= 1.5 s: 650-1150 ms into the call, thorough also 5.2-5.7 s) or 300-450 ms after it, with a secondary that answers at once when started or released, each call judged and replayed as a timed schedule on the model, whose timer may not fire before the regenerated Gen.fallbackThreshold of the configured value; the duration the built plugin carries against Gen.fallbackThreshold for boundary and random configurations; the queries the workers run on: executables scripted with edits of the OPT record of their own query (append an option / a client subnet, delete, drop all, DO, UDP size) and looks at it, in one enforced global order (primary failing / slower than a 20 ms threshold and still editing / in time; with and without always_standby; either worker finishing first), each answering with a record that names the query it answers: whose answer is returned, that it is that worker's answer to the caller's query as edited by that worker alone, that every look shows exactly that, and that the caller's query is unchanged, each call replayed as a schedule and as a fork of the option list on Model.C20Copy; every scenario is non-trivial")
+	r.Finish("scenarios x {always_standby} x primary {answer, no answer, error} x secondary {answer, no answer, error}: A standby secondary finished first + in-time primary paused between its two signalling statements; B no standby + in-time primary paused there; C threshold passes while the primary works; D caller's context ends; E threshold counted from the start of the call; F primary fails at once and the secondary works past the threshold (the timer fires with nobody waiting on it); H the same and then the caller's context ends; each enforced on the real plugin with gated executables and the verifpoint hook and replayed as a schedule on the model; sequences of calls in one process (F/H calls one after the other on one P, or a concurrent burst of them on all Ps, then A/B calls whose primary answers 0-40 ms into a 5 s threshold), every call judged and replayed on its own; 1-3 calls abandoned by their callers while the primary works (with and without always_standby, a standby secondary finished or not; their workers left hanging) and then a call whose primary finishes 1.5 s after a 50-100 ms threshold with a secondary that answers at once when started or released (the secondary's answer must be returned before the primary finishes), on one P and on all Ps, every call replayed on the model; other clients of the timer pool first: 1-3 real sleep steps (run to completion, context already over, cancelled or past their deadline mid-sleep) on one P with the collector off, then one or two calls that go past their 15 ms threshold and keep running, then - while those run - a call whose primary finishes 1.5 s after a 300-400 ms threshold with a secondary that answers at once, the earlier calls' secondaries finishing inside that threshold window (the later call must return the secondary's answer before its primary finishes), every call replayed on the model; random borrow histories on the real pkg/pool timer pool against the model's pooled timer; configured thresholds: plugins built through Init with thresholds of 1 ms .. a day (every bound in between and random ones) run in real time, the primary finishing well within the configured threshold (for thresholds >= 1.5 s: 650-1150 ms into the call, thorough also 5.2-5.7 s) or 300-450 ms after it, with a secondary that answers at once when started or released, each call judged and replayed as a timed schedule on the model, whose timer may not fire before the regenerated Gen.fallbackThreshold of the configured value; the duration the built plugin carries against Gen.fallbackThreshold for boundary and random configurations; the queries the workers run on: executables scripted with edits of the OPT record of their own query (append an option / a client subnet, delete, drop all, DO, UDP size) and looks at it, in one enforced global order (primary failing / slower than a 20 ms threshold and still editing / in time; with and without always_standby; either worker finishing first), each answering with a record that names the query it answers: whose answer is returned, that it is that worker's answer to the caller's query as edited by that worker alone, that every look shows exactly that, and that the caller's query is unchanged, each call replayed as a schedule and as a fork of the option list on Model.C20Copy; every scenario is non-trivial")
 }
 
 // burst20 runs n concurrent calls on one fallback instance in which the primary fails at once and the
